@@ -57,6 +57,11 @@ MULTILINE_SOURCES = [
     "match s (t):\n    case [a, b (c=1),\n          *r] if g (h): pass\n    case {'k': v (),\n          **z}: pass\n",
     "r = f(a (1), k=b (2),\n      *c (3), j=d (4),\n      **e (5))\nclass K(A (1), m=M (2),\n        *B (3)): pass\n",
     "d = {a (1): b (2),\n     **c (3), e: f (4)}\nx = a (1) < b (2) < \\\n    c (3)\ny = lambda p, q=g (1), *, \\\n    s=h (2): p (q)\n",
+    # derived extents: own grouping parentheses (after '(' / before ')' / between '))') and trailing comments of blocks
+    "x = ( a  ) + ( ( b ) )\ny = f( ( c ) , ( d  ),\n       k=( e  ) )\nz = ( ( p ) , ( q  ) )\n",
+    "if ( a  ):  # c1\n    pass  # c2\nelif ( ( b ) ) : pass  # c3\nwhile ( c ): # c4\n    x = ( 1  ) # c5\n",
+    "def f( a = ( 1  ) ):  # c\n    return ( a  ) # d\nfor i in ( x  ) :  # e\n    pass  # f\nwith ( ( m ) ) as n:  # g\n    pass\n"
+    "match ( s  ):\n    case ( ( 1 ) ) | [ ( a  ) ]:  # h\n        pass # i\n",
 ]
 
 
@@ -123,6 +128,13 @@ def splice(src: str, p, q, r: str) -> str:
     tail = lines[q[0]][q[1]:]
     lines[p[0]: q[0] + 1] = (head + r + tail).split('\n')
     return '\n'.join(lines)
+
+
+def splice_text(S, p, q) -> str:
+    """The old text of the spot [p, q)."""
+    if p[0] == q[0]:
+        return S.lines[p[0]][p[1]:q[1]]
+    return '\n'.join([S.lines[p[0]][p[1]:]] + S.lines[p[0] + 1:q[0]] + [S.lines[q[0]][:q[1]]])
 
 
 def end_of(p, r: str):
@@ -279,6 +291,106 @@ class Rec:
             ok = True
         return {'liveS': ls, 'liveP': lp, 'srcOk': ok, 'srcS': ss, 'srcP': sp, 'text': self.tab.text(src)}, src
 
+    # ---- derived, cached answers of the public read-only API (observations; compared per accessor by OffsetTrace) --------
+    def did(self, ans) -> int:
+        d = self.__dict__.setdefault('_d', {})
+        i = d.get(ans)
+        if i is None:
+            i = d[ans] = len(d) + 1
+        return i
+
+    def derived_vec(self, root, with_text=False):
+        """Per accessor the vector (node order = ast.walk) of answer ids; optionally the characters at both ends of every
+        reported grouping-parentheses span (read from the source text: a stdlib fact about the reported span)."""
+        out = {k: [] for k in DERIVED}
+        ends = []
+        lines = root.lines if with_text else None
+        for n in ast.walk(root.a):
+            f = getattr(n, 'f', None)
+            if f is None:
+                continue
+            ans = derived(f)
+            for k, v in zip(DERIVED, ans):
+                out[k].append(self.did(v))
+            if with_text:
+                pr = ans[2]
+                if isinstance(pr, tuple) and len(pr) == 5 and pr[4] >= 1:
+                    try:
+                        ends.append([ord(lines[pr[0]][pr[1]]), ord(lines[pr[2]][pr[3] - 1])])
+                    except (IndexError, TypeError):
+                        ends.append([0, 0])
+        return out, ends
+
+    def cons_vec(self, vec):
+        """Hash-cons the per-accessor answer vectors: one id per (accessor, whole vector); equal ids <=> equal vectors."""
+        return {k: self.did(('vec', k, tuple(v))) for k, v in vec.items()}
+
+    def fresh_derived(self, src):
+        """The same answers from a tree freshly built from `src` (history-independence reference)."""
+        c = self.__dict__.setdefault('_fd', {})
+        v = c.get(src)
+        if v is None:
+            if len(c) > 64:
+                c.clear()
+            try:
+                v = self.derived_vec(fresh(src))[0]
+            except Exception as e:  # noqa: BLE001
+                v = {k: [self.did(('fresh-raise', type(e).__name__))] for k in DERIVED}
+            c[src] = v
+        return v
+
+
+DERIVED = ('loc', 'bloc', 'pars', 'parsUnshared', 'flags')
+WARM_MODES = ('none', 'all', 'anc', 'sib')
+
+
+def _ans(fn):
+    try:
+        v = fn()
+    except Exception as e:  # noqa: BLE001
+        return ('raise', type(e).__name__)
+    if v is None:
+        return None
+    if isinstance(v, tuple):
+        return tuple(v) + ((v.n,) if hasattr(v, 'n') else ())
+    return v
+
+
+def derived(f):
+    """The derived, per-node cached answers: loc, bloc, pars(), pars(shared=False), delimiter flags."""
+    a = f.a
+    flags = None
+    if isinstance(a, ast.Tuple):
+        flags = _ans(f.is_parenthesized_tuple)
+    elif isinstance(a, ast.MatchSequence):
+        flags = _ans(f.is_delimited_matchseq)
+    return (_ans(lambda: f.loc), _ans(lambda: f.bloc), _ans(f.pars), _ans(lambda: f.pars(shared=False)), flags)
+
+
+def warm_nodes(root, target, mode):
+    """The nodes whose derived answers are read (and so cached) before the edit."""
+    if mode == 'all':
+        return [n.f for n in ast.walk(root.a) if getattr(n, 'f', None) is not None]
+    if mode == 'anc':
+        out, f = [], target
+        while f is not None:
+            out.append(f)
+            f = f.parent
+        return out
+    if mode == 'sib':
+        out = []
+        stack = list(ast.iter_child_nodes(target.a))
+        while stack:  # children of the node called on; position-less children are transparent
+            n = stack.pop()
+            f = getattr(n, 'f', None)
+            if f is None:
+                continue
+            out.append(f)
+            if not hasattr(n, 'end_col_offset'):
+                stack.extend(ast.iter_child_nodes(n))
+        return out
+    return []
+
 
 def classify(p, q, r, typ, kind):
     ml = p[0] != q[0] or '\n' in r
@@ -312,28 +424,57 @@ def prepare(S: Src, p, q, r):
             'nl': len(rl) - 1, 'last': len(rl[-1].encode())}
 
 
-def do_splice(rec: Rec, root, S: Src, p, q, r, typ, fact, warm=False, model=None):
-    """Perform one put_src(action='offset') on `root` (whose source is S.src) and return the event."""
+def do_splice(rec: Rec, root, S: Src, p, q, r, typ, fact, warm='none', model=None):
+    """Perform one put_src(action='offset') on `root` (whose source is S.src) and return the event.  `warm` says which
+    nodes have their derived answers read (cached) just before the edit."""
+    if warm is True:
+        warm = 'all'
+    elif not warm:
+        warm = 'none'
     target = navigate(root.a, fact['path']).f
     exc = ''
     try:
-        if warm:
-            exc = 'loc query: '
-            for n in ast.walk(root.a):
-                f = getattr(n, 'f', None)
-                if f is not None:
-                    f.loc  # populate position caches, stale ones would be used by the next call
-            exc = ''
+        exc = 'query before edit: '
+        for f in warm_nodes(root, target, warm):
+            f.loc, f.bloc, f.pars(), f.pars(shared=False)
+            if isinstance(f.a, ast.Tuple):
+                f.is_parenthesized_tuple()
+            elif isinstance(f.a, ast.MatchSequence):
+                f.is_delimited_matchseq()
+        exc = ''
         target.put_src(r, p[0], p[1], q[0], q[1], 'offset')
         outcome = 'ok'
     except Exception as e:  # noqa: BLE001
         outcome = 'raise'
         exc += f'{type(e).__name__}: {e}'[:200]
     post, post_src = rec.state(root)
+    has_d = outcome == 'ok' and post['srcOk']
+    if has_d:
+        live, ends = rec.derived_vec(root, with_text=True)
+        frsh = rec.fresh_derived(post_src)
+        post['d'] = {'live': rec.cons_vec(live), 'fresh': rec.cons_vec(frsh), 'parsEnds': ends}
+    else:
+        live = frsh = {}
+        post['d'] = {'live': {k: 0 for k in DERIVED}, 'fresh': {k: 0 for k in DERIVED}, 'parsEnds': []}
+    # case class of a stale derived answer (classification from logged facts, never a verdict): kinds of the nodes whose
+    # answers differ, which accessors, and how the spot relates to comments (stdlib facts about the old text)
+    dcls = ''
+    if has_d and post['d']['live'] != post['d']['fresh']:
+        lv, fr = live, frsh
+        nodes = [n for n in ast.walk(root.a) if getattr(n, 'f', None) is not None]
+        acc = sorted(k for k in DERIVED if lv.get(k) != fr.get(k))
+        kinds = sorted({type(nodes[i]).__name__ for k in acc if len(lv[k]) == len(fr[k]) == len(nodes)
+                        for i in range(len(nodes)) if lv[k][i] != fr[k][i]})
+        old = splice_text(S, p, q)
+        rel = ('incomment' if '#' in old else 'addcomment' if '#' in r else
+               'precomment' if S.lines[q[0]][q[1]:].lstrip().startswith('#') else
+               'aftercomment' if '#' in S.lines[p[0]][:p[1]] else
+               'afterat' if S.lines[p[0]][:p[1]].rstrip().endswith('@') else 'other')
+        dcls = f"stale={','.join(kinds) or '?'}|acc={','.join(acc)}|{rel}"
     ev = {'call': 'splice', 'outcome': outcome, 'exc': ascii(exc), 'p': fact['pB'], 'q': fact['qB'], 'nl': fact['nl'],
-          'last': fact['last'], 'cls': classify(p, q, r, typ, fact['kind']),
+          'last': fact['last'], 'cls': classify(p, q, r, typ, fact['kind']) + ':' + warm, 'warm': warm, 'dcls': dcls,
           'selfPath': [{'n': f, 'i': 1 if i is None else i + 1} for f, i in fact['path']],
-          'expText': rec.tab.text(fact['new'].src), 'hasModel': model is not None,
+          'expText': rec.tab.text(fact['new'].src), 'hasModel': model is not None, 'hasDerived': has_d,
           'm': model if model is not None else {'n': 0}, 'post': post}
     return ev, post_src
 
@@ -345,11 +486,12 @@ def fresh(src):
 
 def _good(ev, post_src, want_src):
     """Steering only (never a verdict): is the tree still usable for the next step?"""
-    return ev['outcome'] == 'ok' and post_src == want_src and ev['post']['liveP'] == ev['post']['srcP']
+    return (ev['outcome'] == 'ok' and post_src == want_src and ev['post']['liveP'] == ev['post']['srcP']
+            and ev['post']['d']['live'] == ev['post']['d']['fresh'])
 
 
 def _script(S, p, q, r, typ, fact, ev, post_src):
-    return {'src': S.src, 'p': list(p), 'q': list(q), 'r': r, 'typ': typ, 'path': fact['path'],
+    return {'src': S.src, 'p': list(p), 'q': list(q), 'r': r, 'typ': typ, 'path': fact['path'], 'warm': ev['warm'],
             'outcome': ev['outcome'], 'exc': ev['exc'], 'post_src': post_src}
 
 
@@ -369,7 +511,7 @@ def run_source(rec: Rec, tid0: int, src: str, cands, rng: random.Random, chunk=3
             init, _ = rec.state(root)
             tr, sc = {'id': tid0 + len(out), 'init': init, 'steps': []}, []
             out.append((tr, sc))
-        ev, post_src = do_splice(rec, root, S0, p, q, r, typ, fact, warm=rng.random() < 0.5)
+        ev, post_src = do_splice(rec, root, S0, p, q, r, typ, fact, warm=rng.choice(WARM_MODES))
         tr['steps'].append(ev)
         sc.append(_script(S0, p, q, r, typ, fact, ev, post_src))
         if not _good(ev, post_src, fact['new'].src):
@@ -383,7 +525,7 @@ def run_source(rec: Rec, tid0: int, src: str, cands, rng: random.Random, chunk=3
         if f2 is None:
             root = None
             continue
-        ev2, post2 = do_splice(rec, root, N, p2, q2, old, typ + 'u', f2, warm=rng.random() < 0.5)
+        ev2, post2 = do_splice(rec, root, N, p2, q2, old, typ + 'u', f2, warm=rng.choice(WARM_MODES))
         tr['steps'].append(ev2)
         sc.append(_script(N, p2, q2, old, typ + 'u', f2, ev2, post2))
         if not _good(ev2, post2, src):
@@ -406,13 +548,28 @@ def run_walk(rec: Rec, tid: int, src: str, nsteps: int, rng: random.Random):
                 break
         else:
             break
-        ev, post_src = do_splice(rec, root, cur, p, q, r, typ + 'w', fact, warm=rng.random() < 0.5)
+        ev, post_src = do_splice(rec, root, cur, p, q, r, typ + 'w', fact, warm=rng.choice(WARM_MODES))
         tr['steps'].append(ev)
         sc.append(_script(cur, p, q, r, typ + 'w', fact, ev, post_src))
         if not _good(ev, post_src, fact['new'].src):
             break
         cur = fact['new']
     return tr, sc
+
+
+def hot_spots(S: Src):
+    """Spots next to grouping-parenthesis tokens or before a comment: where a node's derived extent (pars / bloc) reaches
+    past its own span."""
+    op_end, cl_start, cl_end, cm_start = set(), set(), set(), set()
+    for t in S.tk:
+        if t.type == T.OP and t.string == '(':
+            op_end.add(S.tend(t))
+        elif t.type == T.OP and t.string == ')':
+            cl_start.add(S.tstart(t))
+            cl_end.add(S.tend(t))
+        elif t.type == T.COMMENT:
+            cm_start.add(S.tstart(t))
+    return lambda p, q: p in op_end or q in cl_start or p in cl_end or q in cm_start
 
 
 def all_candidates(S: Src):
@@ -442,12 +599,20 @@ class Render:
         self.par = [0] + row['par']
         self.kind = [''] + row['kind']
         self.sep = [False] + row['sep']
+        self.wrap = [''] + list(row.get('wrap') or ['none'] * row['n'])
         self.kids = {k: [m for m in range(1, self.n + 1) if self.par[m] == k] for k in range(1, self.n + 1)}
         self.variant = variant
         self.atoms = []  # (owner, text, opens, closes)
         self._emit(1, 0)
 
     def _emit(self, k, level):
+        if self.wrap[k] == 'pars' and level != 'in':  # own grouping parentheses: atoms of the parent
+            self.atoms.append((self.par[k], '(', 1))
+            self._emit_in(k)
+            self.atoms.append((self.par[k], ')', -1))
+            return
+        if level == 'in':
+            level = 0
         kd, ks = self.kind[k], self.kids[k]
         if kd == 'tok':
             self.atoms.append((k, IDENTS[(k + self.variant) % len(IDENTS)], 0))
@@ -480,6 +645,11 @@ class Render:
                     if i:
                         self.atoms.append((k, '<', 0))
                     self._emit(c, 0)
+
+    def _emit_in(self, k):
+        w, self.wrap[k] = self.wrap[k], 'none'
+        self._emit(k, 0)
+        self.wrap[k] = w
 
     def ast_path(self, k):
         """Path of model node k below the expression (root = Module.body[0].value)."""
@@ -580,7 +750,7 @@ def model_case(rec: Rec, tid: int, row, sp, salt: int):
         return None, 'newlayout'
     root = fresh(src)
     init, _ = rec.state(root)
-    ev, post_src = do_splice(rec, root, S, p, q, r, 'G', fact, warm=salt % 2 == 0)
+    ev, post_src = do_splice(rec, root, S, p, q, r, 'G', fact, warm=WARM_MODES[salt % 4])
     obs = []
     e = root.a.body[0].value if root.a.body and hasattr(root.a.body[0], 'value') else None
     for k in range(1, R.n + 1):
@@ -592,10 +762,11 @@ def model_case(rec: Rec, tid: int, row, sp, salt: int):
             st = en = (-2, -2)
         obs.append([st[0], st[1], en[0], en[1]])
     ev['hasModel'] = True
-    ev['m'] = {'n': row['n'], 'par': row['par'], 'kind': row['kind'], 'sep': row['sep'], 'gaps': gaps, 'g': g, 'p': mp,
+    ev['m'] = {'n': row['n'], 'par': row['par'], 'kind': row['kind'], 'sep': row['sep'],
+               'wrap': list(row.get('wrap') or ['none'] * row['n']), 'gaps': gaps, 'g': g, 'p': mp,
                'q': mq, 'ins': ins, 'obs': obs}
     script = [{'src': src, 'p': p, 'q': q, 'r': r, 'typ': 'G', 'path': fact['path'], 'outcome': ev['outcome'],
-               'exc': ev['exc'], 'post_src': post_src, 'row': {k: row[k] for k in ('n', 'par', 'kind', 'sep', 'gaps')},
+               'warm': ev['warm'], 'exc': ev['exc'], 'post_src': post_src, 'row': {k: row[k] for k in ('n', 'par', 'kind', 'sep', 'wrap', 'gaps') if k in row},
                'sp': sp, 'salt': salt}]
     return {'id': tid, 'init': init, 'steps': [ev]}, script
 
